@@ -9,6 +9,10 @@ Layout
   §5  `trunc` on non-finite / integer-valued inputs, the hypothesis `TruncSpec`
   §6  `TryFrom<TwoFloat>` for the small integer types (generic model `tryFromSmall`)
   §7  `TryFrom<TwoFloat>` for the wide integer types (generic model `tryFromBig`, `tryFromBigPf`)
+  §8  packaged statements (`ExactBig`, `ApproxBig`, `tryFromSpec`) used by `TFV.Properties.C09`
+
+Hypotheses-as-structures: `FastTwoSumSpec` (§4, general 128-bit case only) and `TruncSpec` (§5, `try_from` on
+general valid inputs only); both are discharged in `TFV.Properties.C09` from Lemmas/EFT and Lemmas/Fraction.
 -/
 import TFV.Lemmas.Cmp
 import TFV.Lemmas.NoOverlap
@@ -1411,5 +1415,79 @@ theorem tryFromBig_fromBig (T : TruncSpec) {s : Bool} {b : Nat} (hK : 54 ≤ Int
   rw [this]
   have : IntN.fits s b v.v = true := hv
   rw [if_pos this]
+
+end Conv
+
+/-! ## §8 packaged statements used by `TFV.Properties.C09` -/
+
+namespace Conv
+open F64 TwoFloat
+
+/-- what the exact wide conversion delivers: the literal words `(RN(n), n - RN(n))`, exact value `n`,
+both notions of validity -/
+structure ExactBig (t : TwoFloat) (z : Int) : Prop where
+  words : t = ⟨F64.ofInt z, F64.ofInt (z - rnI z)⟩
+  V : t.V = z * U
+  valid : t.Valid
+  is_valid : TwoFloat.is_valid t = true
+  wf : t.WF
+
+/-- what the general wide conversion delivers: a valid pair whose value `w` is within `2^-106 |n|` of `n` -/
+structure ApproxBig (t : TwoFloat) (z : Int) : Prop where
+  valid : t.Valid
+  is_valid : TwoFloat.is_valid t = true
+  wf : t.WF
+  approx : ∃ w : Int, t.V = w * U ∧ 2 ^ 106 * |z - w| ≤ |z|
+
+theorem exactBig_of {s : Bool} {b : Nat} (hK : 54 ≤ IntN.K s b) (hK' : IntN.K s b ≤ 128) (v : IntN s b)
+    (hv : v.inRange = true) (hr : Rep (v.v - rnI v.v).natAbs) : ExactBig (fromBig v) v.v := by
+  obtain ⟨h1, h2, h3, h4⟩ := fromBig_exact hK hK' v hv hr
+  exact ⟨h1, h2, h3, (F64.NoOverlap.is_valid_iff _ h4).2 h3, h4⟩
+
+theorem approxBig_of (hF : FastTwoSumSpec) {s : Bool} {b : Nat} (hK : 54 ≤ IntN.K s b)
+    (hK' : IntN.K s b ≤ 128) (v : IntN s b) (hv : v.inRange = true) : ApproxBig (fromBig v) v.v := by
+  obtain ⟨h1, h2, h3⟩ := fromBig_approx hF hK hK' v hv
+  exact ⟨h1, (F64.NoOverlap.is_valid_iff _ h2).2 h1, h2, h3⟩
+
+/-- the specified result: `Ok(t)` with `t = trunc(hi + lo)` iff `t` lies in the range of the type -/
+def tryFromSpec (s : Bool) (b : Nat) (x : TwoFloat) : RResult (IntN s b) :=
+  if IntN.fits s b (Int.tdiv x.V U) = true then Except.ok ⟨Int.tdiv x.V U⟩
+  else Except.error TwoFloatError.ConversionError
+
+/-- `Ok(t)` is returned exactly when `t = trunc(hi + lo)` and `t` lies in the range of the type -/
+theorem tryFromSpec_ok_iff {s : Bool} {b : Nat} {x : TwoFloat} (t : IntN s b) :
+    tryFromSpec s b x = Except.ok t ↔ t.v = Int.tdiv x.V U ∧ t.inRange = true := by
+  unfold tryFromSpec
+  rcases t with ⟨v⟩
+  by_cases h : IntN.fits s b (Int.tdiv x.V U) = true
+  · rw [if_pos h]
+    constructor
+    · intro e
+      have e' : Int.tdiv x.V U = v := by injection e with e; injection e
+      subst e'
+      exact ⟨rfl, h⟩
+    · rintro ⟨e, -⟩
+      simp only at e
+      rw [e]
+  · rw [if_neg h]
+    constructor
+    · intro e; exact absurd e (by simp)
+    · rintro ⟨e, h'⟩
+      simp only at e
+      subst e
+      exact absurd h' h
+
+/-- an error is returned exactly when `trunc(hi + lo)` lies outside the range of the type -/
+theorem tryFromSpec_err_iff {s : Bool} {b : Nat} {x : TwoFloat} :
+    tryFromSpec s b x = Except.error TwoFloatError.ConversionError ↔
+      IntN.fits s b (Int.tdiv x.V U) = false := by
+  unfold tryFromSpec
+  by_cases h : IntN.fits s b (Int.tdiv x.V U) = true
+  · rw [if_pos h, h]; simp
+  · rw [if_neg h]; simpa using h
+
+theorem tryFromSmall_spec (T : TruncSpec) {s : Bool} {b : Nat} (hK : IntN.K s b ≤ 52) (x : TwoFloat)
+    (hx : x.Valid) (hw : x.WF) : (tryFromSmall x : RResult (IntN s b)) = tryFromSpec s b x :=
+  tryFromSmall_valid T hK x hx hw
 
 end Conv
